@@ -1,4 +1,5 @@
 SPECIFICATION Spec
+CONSTANT EVariant = "faithful"
 CONSTANT Tier = "quick"
 INVARIANT StreamIsEnc
 INVARIANT SizeIsLen
